@@ -403,7 +403,7 @@ def gen_case(rng, pool_max, env_size):
     equal, miss = [], []
     # base queries: names, bodies, fresh types
     bases = []
-    for _ in range(rng.randint(2, 4)):
+    for _ in range(rng.randint(2, max(4, pool_max // 3))):
         r = rng.random()
         d = rng.choice(env.defs)
         if r < 0.4:
